@@ -32,6 +32,7 @@ import (
 	"os/exec"
 	"path"
 	"path/filepath"
+	"regexp"
 	"sort"
 	"strconv"
 	"strings"
@@ -2078,8 +2079,50 @@ func c20GenCoq(repo string) (string, error) {
 	if !found || len(vocab) == 0 {
 		return "", fmt.Errorf("getSubstitution's switch labels not found in replacer.go")
 	}
+	c20VocabNote(vocab)
 	return "(* replacer.getSubstitution: the `case \"{…}\"` labels of the default vocabulary *)\n" +
 		"Definition gen_c20_vocab : list bytes := " + cStrList(vocab) + ".\n", nil
+}
+
+// c20VocabNote prints (into the evidence's translator note) how the model treats each regenerated label:
+// computed by the model from the request (Fn) or an oracle value handed in. The classification is read
+// from the dispatch table in coq/C20_Model.v; that the table and the labels are the same set is the
+// kernel-checked theorem C20_vocabulary_is_dispatch_table, not this note.
+func c20VocabNote(vocab []string) {
+	root := os.Getenv("VERIF_ROOT")
+	if root == "" {
+		return
+	}
+	b, err := os.ReadFile(filepath.Join(root, "coq", "C20_Model.v"))
+	if err != nil {
+		return
+	}
+	re := regexp.MustCompile(`\(bs "(\{[a-z_0-9]+\})", (Fn|Oracle)`)
+	how := map[string]string{}
+	for _, m := range re.FindAllStringSubmatch(string(b), -1) {
+		how[m[1]] = m[2]
+	}
+	var fn, or, missing, extra []string
+	inVocab := map[string]bool{}
+	for _, l := range vocab {
+		inVocab[l] = true
+		switch how[l] {
+		case "Fn":
+			fn = append(fn, l)
+		case "Oracle":
+			or = append(or, l)
+		default:
+			missing = append(missing, l)
+		}
+	}
+	for l := range how {
+		if !inVocab[l] {
+			extra = append(extra, l)
+		}
+	}
+	sort.Strings(extra)
+	fmt.Printf("C20 vocabulary: %d labels in getSubstitution's switch; model dispatch table: %d computed by the model from the request %v, %d oracle values (Go stdlib on the generator's request, or not judged) %v; labels without a model entry %v; model entries without a label %v\n",
+		len(vocab), len(fn), fn, len(or), or, missing, extra)
 }
 
 func init() {
